@@ -15,18 +15,21 @@ def _fsm_variant():
 
 
 RAFT = {"dir": "consensus/raft", "pkgname": "raft"}
-FILES = ["raft/c01_rig_test.go", _fsm_variant(), "raft/c01_test.go", "raft/c01_r2_test.go"]
+FILES = ["raft/c01_rig_test.go", _fsm_variant(), "raft/c01_test.go", "raft/c01_r2_test.go", "raft/c17_test.go", "raft/c01_r3_test.go"]
 
 SPEC = {
     "go": [dict(RAFT, files=FILES, test="TestVerifC01",
-                n_quick=120, n_thorough=2400, shards_quick=4, shards_thorough=12, timeout_quick=600, timeout_thorough=3000),
+                n_quick=120, n_thorough=2000, shards_quick=4, shards_thorough=12, timeout_quick=600, timeout_thorough=3000),
            dict(RAFT, files=FILES, test="TestVerifR2C01",
-                n_quick=2, n_thorough=12, shards_quick=1, shards_thorough=1, timeout_quick=600, timeout_thorough=1500)],
+                n_quick=2, n_thorough=12, shards_quick=1, shards_thorough=1, timeout_quick=600, timeout_thorough=1500),
+           dict(RAFT, files=FILES, test="TestVerifR3C01",
+                n_quick=2, n_thorough=40, shards_quick=1, shards_thorough=1, timeout_quick=600, timeout_thorough=1500)],
     "rule": "generated scripts on 1..3 real hashicorp/raft nodes (in-memory stores/transports) with the real go-libp2p-raft FSM, "
             "dsstate and LogOp: pin/unpin of rich random pins over 2..4 cids submitted at leader and followers, partitions, "
             "snapshots (also with Persist held back), restarts, the pinset after every FSM step; plus boundary-value pins, "
             "malformed entries and pins with origins; and (R2) the real NewConsensus over libp2p + boltdb, 1 and 3 peers, with shutdown, "
-            "restart on the same folder, install onto a restarted follower, OfflineState. non-trivial = at least two ops on one cid reached the committed log and "
+            "restart on the same folder, install onto a restarted follower, OfflineState; and (R3) kill -9 of a child process running a "
+            "1-peer consensus at a chosen acknowledgement, restart on the same folder. non-trivial = at least two ops on one cid reached the committed log and "
             "some replica restored a snapshot or restarted; distinct = distinct canonical JSON of the script",
     "codes": {1: "model_eq_impl (C01: Gallina FSM/LogOp/dsstate model driven by the observed Raft schedule)",
               2: "spec_okb (C01: every replica = replay of a prefix of the one committed sequence, nothing skipped, acknowledged ops "
